@@ -132,6 +132,17 @@ func (f *Frame) execInstr(in ssa.Instruction, reach string, st *State) {
 		et := x.Type().Underlying().(*types.Pointer).Elem()
 		f.zeroInit(st, p, et)
 		f.define(x, p)
+		if privateCell(x) {
+			// the variable's address is never stored or passed on: no pointer held in the heap, in a
+			// parameter or returned by a call refers to it
+			f.ctx.Fact(fmt.Sprintf("(islocalobj (pobj %s))", p))
+		}
+		if assignedOnceCell(x) {
+			// a variable assigned exactly once (at its declaration) and otherwise only read, also
+			// by the closures capturing it: nothing that is havocked (external calls, loops) can
+			// change it
+			f.top.immCells = append(f.top.immCells, immCell{p, et})
+		}
 	case *ssa.BinOp:
 		f.define(x, f.binop(x, reach))
 	case *ssa.UnOp:
@@ -955,4 +966,111 @@ func sortedIntKeys[V any](m map[int]V) []int {
 	}
 	sort.Ints(ks)
 	return ks
+}
+
+// assignedOnceCell: x is a local variable cell whose address is used only by one Store (in the
+// block of the Alloc itself), by loads, and by closures that only load it (transitively).
+func assignedOnceCell(x *ssa.Alloc) bool {
+	if x.Referrers() == nil {
+		return false
+	}
+	stores := 0
+	var readOnly func(v ssa.Value, refs []ssa.Instruction, depth int) bool
+	readOnly = func(v ssa.Value, refs []ssa.Instruction, depth int) bool {
+		if depth > 4 {
+			return false
+		}
+		for _, r := range refs {
+			switch u := r.(type) {
+			case *ssa.DebugRef:
+			case *ssa.UnOp:
+				if u.Op != token.MUL {
+					return false
+				}
+			case *ssa.Store:
+				if u.Addr != v || u.Val == v || depth > 0 || u.Block() != x.Block() {
+					return false
+				}
+				stores++
+			case *ssa.MakeClosure:
+				fn, ok := u.Fn.(*ssa.Function)
+				if !ok {
+					return false
+				}
+				for i, b := range u.Bindings {
+					if b != v {
+						continue
+					}
+					if i >= len(fn.FreeVars) {
+						return false
+					}
+					fv := fn.FreeVars[i]
+					if fv.Referrers() == nil || !readOnly(fv, *fv.Referrers(), depth+1) {
+						return false
+					}
+				}
+			default:
+				return false
+			}
+		}
+		return true
+	}
+	return readOnly(x, *x.Referrers(), 0) && stores <= 1
+}
+
+// privateCell: the address of local variable x is used only to load from and store to it (also
+// through field/element addresses and by closures capturing it): it never becomes a value held
+// elsewhere.
+func privateCell(x *ssa.Alloc) bool {
+	if x.Referrers() == nil {
+		return false
+	}
+	var ok func(v ssa.Value, refs []ssa.Instruction, depth int) bool
+	ok = func(v ssa.Value, refs []ssa.Instruction, depth int) bool {
+		if depth > 6 {
+			return false
+		}
+		for _, r := range refs {
+			switch u := r.(type) {
+			case *ssa.DebugRef:
+			case *ssa.UnOp:
+				if u.Op != token.MUL {
+					return false
+				}
+			case *ssa.Store:
+				if u.Addr != v || u.Val == v {
+					return false
+				}
+			case *ssa.FieldAddr:
+				if u.Referrers() == nil || !ok(u, *u.Referrers(), depth+1) {
+					return false
+				}
+			case *ssa.IndexAddr:
+				if u.X != v || u.Referrers() == nil || !ok(u, *u.Referrers(), depth+1) {
+					return false
+				}
+			case *ssa.MakeClosure:
+				fn, isFn := u.Fn.(*ssa.Function)
+				if !isFn {
+					return false
+				}
+				for i, b := range u.Bindings {
+					if b != v {
+						continue
+					}
+					if i >= len(fn.FreeVars) {
+						return false
+					}
+					fv := fn.FreeVars[i]
+					if fv.Referrers() != nil && !ok(fv, *fv.Referrers(), depth+1) {
+						return false
+					}
+				}
+			default:
+				return false
+			}
+		}
+		return true
+	}
+	return ok(x, *x.Referrers(), 0)
 }
